@@ -625,9 +625,20 @@ func resolveAllProtocolChanges(newEnv, oldEnv *Environment, context *EvolutionCo
 				continue
 			}
 
-			if protocolChange := compareProtocolDefinitions(newProt, oldProt, context); protocolChange != nil {
+			protocolChange := compareProtocolDefinitions(newProt, oldProt, context)
+			previousSchema := GetProtocolSchemaString(oldProt, oldEnv.SymbolTable)
+			if protocolChange == nil && previousSchema != GetProtocolSchemaString(newProt, newEnv.SymbolTable) {
+				// No change to the data, but streams of the old version carry a different schema
+				// (e.g. a type was renamed through an alias) and must still be recognized
+				protocolChange = &ProtocolChange{
+					DefinitionPair: DefinitionPair{oldProt, newProt},
+					StepChanges:    make([]TypeChange, len(newProt.Sequence)),
+				}
+			}
+
+			if protocolChange != nil {
 				// Annotate the ProtocolChange with the Old ProtocolDefinition schema string
-				protocolChange.PreviousSchema = GetProtocolSchemaString(oldProt, oldEnv.SymbolTable)
+				protocolChange.PreviousSchema = previousSchema
 				allProtocolChanges[oldProt.GetQualifiedName()] = protocolChange
 			}
 		}
